@@ -211,7 +211,9 @@ pub fn op_writer(session: &mut Session, cmd: &J) -> Result<J, String> {
 	let mut out_steps: Vec<J> = Vec::new();
 	let build_res;
 	{
-		let builder = WriterBuilder::new(&mut config).compression(compression).approx_block_size(approx).sync_marker(sync);
+		let builder = WriterBuilder::new(&mut config).compression(compression).approx_block_size(approx);
+		// "random_sync": the marker is left to the library (randomly generated, the default)
+		let builder = if cmd.get("random_sync").and_then(|b| b.as_bool()).unwrap_or(false) { builder } else { builder.sync_marker(sync) };
 		let built = catch_unwind(AssertUnwindSafe(|| {
 			if meta.is_empty() {
 				builder.build(&mut sink)
@@ -251,6 +253,10 @@ pub fn op_writer(session: &mut Session, cmd: &J) -> Result<J, String> {
 							let b = bytes_of(&op["bytes"])?;
 							let n = op["n"].as_u64().ok_or("push n")?;
 							Ok(writer.as_mut().unwrap().push_serialized(&b, n).map(|_| None).map_err(|e| e.to_string()))
+						}
+						"serialize_all" => {
+							let ps: Vec<P> = op["pres_list"].as_array().ok_or("pres_list")?.iter().map(P::from_json).collect::<Result<_, _>>()?;
+							Ok(writer.as_mut().unwrap().serialize_all(ps.iter()).map(|_| None).map_err(|e| e.to_string()))
 						}
 						"finish" => Ok(writer.as_mut().unwrap().finish_block().map(|_| None).map_err(|e| e.to_string())),
 						"into_inner" => {
@@ -356,6 +362,7 @@ fn run_reader<'de, R>(
 	n_calls: usize,
 	hints: &'static str,
 	input_range: (usize, usize),
+	api: &str,
 ) -> J
 where
 	R: serde_avro_fast::de::read::take::Take + serde_avro_fast::de::read::ReadSlice<'de> + std::io::BufRead,
@@ -374,8 +381,28 @@ where
 	ctx.hints = hints;
 	ctx.input = input_range;
 	let mut results = Vec::new();
-	for _ in 0..n_calls {
-		let r = reader.deserialize_seed_next(Cap::root(&ctx));
+	if api == "iter" {
+		// the iterator API (`Reader::deserialize`): items until it ends; the hook state cannot be looked at while it borrows the reader
+		let items: Vec<Result<crate::ops::CapturedOwned, serde_avro_fast::de::DeError>> =
+			crate::ops::with_capture_ctx(&ctx, || reader.deserialize::<crate::ops::CapturedOwned>().take(n_calls).collect());
+		let ended = items.len() < n_calls;
+		for r in items {
+			match r {
+				Ok(v) => results.push(json!({"r": "some", "value": v.0, "st": "unknown", "left": -1, "latch": -1})),
+				Err(e) => results.push(json!({"r": "err", "io": e.io_error().is_some(), "msg": e.to_string(), "st": "unknown", "left": -1, "latch": -1})),
+			}
+		}
+		if ended {
+			results.push(json!({"r": "none", "st": "unknown", "left": -1, "latch": -1}));
+		}
+	}
+	for _ in 0..(if api == "iter" { 0 } else { n_calls }) {
+		let r = if api == "typed" {
+			// `deserialize_next::<T>` with a DeserializeOwned target
+			crate::ops::with_capture_ctx(&ctx, || reader.deserialize_next::<crate::ops::CapturedOwned>()).map(|o| o.map(|c| c.0))
+		} else {
+			reader.deserialize_seed_next(Cap::root(&ctx))
+		};
 		#[cfg(ten0_serde_avro_fast_verif)]
 		let (st, left, latch) = {
 			let (a, b, c) = reader.verif_state();
@@ -404,11 +431,12 @@ pub fn op_reader(cmd: &J) -> Result<J, String> {
 	};
 	let rd = &cmd["reader"];
 	let kind = rd.get("kind").and_then(|k| k.as_str()).unwrap_or("slice");
+	let api = rd.get("api").and_then(|k| k.as_str()).unwrap_or("seed");
 	Ok(match kind {
 		"slice" => {
 			let range = (file.as_ptr() as usize, file.as_ptr() as usize + file.len());
 			let r = Reader::new_and_metadata::<UserMeta>(serde_avro_fast::de::read::SliceRead::new(&file));
-			run_reader(r, n_calls, hints, range)
+			run_reader(r, n_calls, hints, range, api)
 		}
 		"chunks" => {
 			let sched: Vec<usize> = rd
@@ -419,13 +447,13 @@ pub fn op_reader(cmd: &J) -> Result<J, String> {
 			let mut cr = ChunkedReader::new(file.clone(), sched);
 			cr.fail_at_refill = rd.get("fail_at_refill").and_then(|x| x.as_u64()).map(|x| x as usize);
 			let r = Reader::new_and_metadata::<UserMeta>(serde_avro_fast::de::read::ReaderRead::new(cr));
-			run_reader(r, n_calls, hints, (0, 0))
+			run_reader(r, n_calls, hints, (0, 0), api)
 		}
 		"bufreader" => {
 			let cap = rd.get("cap").and_then(|c| c.as_u64()).unwrap_or(8192) as usize;
 			let br = std::io::BufReader::with_capacity(cap.max(1), std::io::Cursor::new(file.clone()));
 			let r = Reader::new_and_metadata::<UserMeta>(serde_avro_fast::de::read::ReaderRead::new(br));
-			run_reader(r, n_calls, hints, (0, 0))
+			run_reader(r, n_calls, hints, (0, 0), api)
 		}
 		other => return Err(format!("unknown reader kind {other}")),
 	})
